@@ -29,6 +29,8 @@ def m_isinstance(it, v, c):
     if isinstance(c, PClass):
         return isinstance(v, PObj) and c in v.cls.mro()
     if isinstance(c, type):
+        if type(v).__name__ == "ISOText":  # isoformat() of a symbolic datetime is text
+            return c in (str, object)
         if isinstance(v, PObj):
             return v.cls.is_subclass_of(c)
         if isinstance(v, SInt):
@@ -343,6 +345,13 @@ def native_new(it, native_type, cls, rest, kwargs):
     o = PObj(cls)
     it.allocs.append(o)
     r = [it.unbase(x) for x in rest]
+    import datetime as _dtm_
+
+    if isinstance(native_type, type) and issubclass(native_type, _dtm_.datetime) and not (all(it.concrete(x) for x in r) and all(it.concrete(x) for x in kwargs.values())):
+        from .dt import SymDT
+
+        o.base = SymDT.build(it, r, {k: it.unbase(v) for k, v in kwargs.items()})
+        return o
     if all(it.concrete(x) for x in r) and all(it.concrete(x) for x in kwargs.values()):
         try:
             o.base = native_type(*r, **kwargs)
